@@ -31,6 +31,7 @@ type World struct {
 	declOf  map[*ssa.Function]ast.Node
 	NFiles  int
 	infra   []string // infrastructure problems (type errors, ...)
+	fx      *Facts   // set once the facts are built: lets refClosure follow function values kept in variables
 }
 
 func shortPkg(path string) string {
